@@ -11,8 +11,8 @@ REPLY = {'config': 'config', 'upload_edb': 'upload', 'result': 'search'}
 TRIPLES = [('C', 'S', 'S'), ('C', 'C', 'C'), ('CU', 'U', 'S'), ('C', 'U', 'S'), ('CU', 'CU', 'S'), ('C', 'CU', 'U')]
 VTIME_HORIZON = 90.0
 LIMIT2 = {'quick': 3000, 'thorough': 40000}
-BOUND3 = {'quick': 1, 'thorough': 3}
-LIMIT3 = {'quick': 400, 'thorough': 40000}
+BOUND3 = {'quick': 2, 'thorough': 4}
+LIMIT3 = {'quick': 1500, 'thorough': 60000}
 
 
 def describe(tier):
